@@ -110,3 +110,29 @@ def _(member: Obj("Type")) -> ByteArray:
     requires(member.tag is not None)
     ensures(len(result) == len(member.tag) and result[0] == member.tag[0] - (member.tag[0] // 32) % 2 * 32
             and result[1:] == member.tag[1:])
+
+
+@contract("MembersType.encode_content", props=["C03", "C01", "C12"], for_class="any")
+def _(self, data: Map('str', Val), values: Opt(Val)) -> ByteArray:
+    raises(EncodeError)
+    loop(0, invariant=[len(encoded_members) >= 0])
+
+
+@contract("ArrayType.encode_content", props=["C03", "C01", "C12"], for_class="any")
+def _(self, data: ValSeq, values: Opt(Val)) -> ByteArray:
+    # elements are appended one after another (order of the value list); nothing else is written
+    raises(EncodeError)
+    loop(0, invariant=[len(encoded_elements) >= 0])
+
+
+@contract("ExplicitTag.encode_content", props=["C03", "C01", "C12"])
+def _(self, data: Val, values: Opt(Val)) -> ByteArray:
+    raises(EncodeError)
+
+
+@contract("MembersType.encode_additions", abstract=True)
+def _(self, data: Map('str', Val), encoded_members: ByteArray):
+    # assumed (NOT verified): extension additions are appended after the root; an EncodeError inside an addition is
+    # swallowed by the code (additions are encoded "as far as possible")
+    assigns(encoded_members)
+    ensures(len(encoded_members) >= len(old(encoded_members)) and encoded_members[:len(old(encoded_members))] == old(encoded_members))
